@@ -9,7 +9,8 @@
 //!   * network id == configured network
 //!   * set-like optional fields are absent rather than empty
 //!   * compiling the same reduced template twice gives byte-identical payloads
-//! BOUND: 4 templates x 3 parameter settings x 2 networks.
+//! BOUND: 8 templates (incl. redeemer + metadata together, and Plutus V1 / V3 / V2 scripts in that order within one
+//! process) x 3 parameter settings x 2 networks.
 use std::collections::BTreeMap;
 use tx3_cardano::pallas::ledger::primitives::conway as primitives;
 use tx3_cardano::pallas::ledger::traverse::ComputeHash;
@@ -38,6 +39,34 @@ tx with_datum(quantity: Int) {
     output { to: Receiver, amount: Ada(quantity), datum: State { a: quantity, b: 0xAFAF, }, }
     output { to: Sender, amount: source - Ada(quantity) - fees, }
 }
+tx mint_meta(quantity: Int) {
+    input source { from: Sender, min_amount: Ada(2000000) + fees, }
+    mint { amount: AnyAsset(0x6b9c456aa650cb808a9ab54326e039d5235ed69f069c9664a8fe5b69, "ABC", quantity), redeemer: (), }
+    output { to: Receiver, amount: Ada(2000000) + AnyAsset(0x6b9c456aa650cb808a9ab54326e039d5235ed69f069c9664a8fe5b69, "ABC", quantity), }
+    output { to: Sender, amount: source - Ada(2000000) - fees, }
+    metadata { 674: "minted", }
+}
+tx mint_v1(quantity: Int) {
+    input source { from: Sender, min_amount: Ada(2000000) + fees, }
+    mint { amount: AnyAsset(0x6b9c456aa650cb808a9ab54326e039d5235ed69f069c9664a8fe5b69, "ABC", quantity), redeemer: (), }
+    output { to: Receiver, amount: Ada(2000000) + AnyAsset(0x6b9c456aa650cb808a9ab54326e039d5235ed69f069c9664a8fe5b69, "ABC", quantity), }
+    output { to: Sender, amount: source - Ada(2000000) - fees, }
+    cardano::plutus_witness { version: 1, script: 0x5101010023259800a518a4d136564004ae69, }
+}
+tx mint_v3(quantity: Int) {
+    input source { from: Sender, min_amount: Ada(2000000) + fees, }
+    mint { amount: AnyAsset(0x6b9c456aa650cb808a9ab54326e039d5235ed69f069c9664a8fe5b69, "ABC", quantity), redeemer: (), }
+    output { to: Receiver, amount: Ada(2000000) + AnyAsset(0x6b9c456aa650cb808a9ab54326e039d5235ed69f069c9664a8fe5b69, "ABC", quantity), }
+    output { to: Sender, amount: source - Ada(2000000) - fees, }
+    cardano::plutus_witness { version: 3, script: 0x5101010023259800a518a4d136564004ae69, }
+}
+tx mint_v2(quantity: Int) {
+    input source { from: Sender, min_amount: Ada(2000000) + fees, }
+    mint { amount: AnyAsset(0x6b9c456aa650cb808a9ab54326e039d5235ed69f069c9664a8fe5b69, "ABC", quantity), redeemer: (), }
+    output { to: Receiver, amount: Ada(2000000) + AnyAsset(0x6b9c456aa650cb808a9ab54326e039d5235ed69f069c9664a8fe5b69, "ABC", quantity), }
+    output { to: Sender, amount: source - Ada(2000000) - fees, }
+    cardano::plutus_witness { version: 2, script: 0x5101010023259800a518a4d136564004ae69, }
+}
 tx with_mint(quantity: Int) {
     input source { from: Sender, min_amount: Ada(2000000) + fees, }
     mint { amount: AnyAsset(0x6b9c456aa650cb808a9ab54326e039d5235ed69f069c9664a8fe5b69, "ABC", quantity), redeemer: (), }
@@ -52,7 +81,8 @@ fn witness(ob: &str, f: &str, input: String, observed: String, required: &str) {
 
 fn main() {
     let mut cases = 0u64;
-    for name in ["plain", "with_metadata", "with_datum", "with_mint"] {
+    // the order matters for state that could leak from one compilation to the next: V1, then V3, then V2 scripts
+    for name in ["plain", "with_metadata", "with_datum", "with_mint", "mint_meta", "mint_v1", "mint_v3", "mint_v2"] {
         for (a, b, extra) in [(44u64, 155381u64, None), (1, 2, Some(0)), (1000, 1_000_000, Some(7))] {
             for mainnet in [false, true] {
                 cases += 1;
@@ -90,7 +120,7 @@ fn main() {
                     (None, None) => {}
                     (a, h) => witness("cardano_body/entry_point#postcondition", "entry_point", input.clone(), format!("aux_present={} hash_present={}", a.is_some(), h.is_some()), "auxiliary_data_hash present iff auxiliary data is carried"),
                 }
-                let wants_meta = name == "with_metadata";
+                let wants_meta = name == "with_metadata" || name == "mint_meta";
                 if aux.is_some() != wants_meta {
                     witness("cardano_body/entry_point#postcondition", "entry_point", input.clone(), format!("aux_present={}", aux.is_some()), "auxiliary data carried iff the template has metadata");
                 }
@@ -98,7 +128,20 @@ fn main() {
                 if body.script_data_hash.is_some() != has_redeemers {
                     witness("cardano_body/entry_point#postcondition", "entry_point", input.clone(), format!("redeemers={} script_data_hash={}", has_redeemers, body.script_data_hash.is_some()), "script_data_hash present iff redeemers are carried");
                 }
-                if has_redeemers != (name == "with_mint") {
+                // the script-data hash is the digest of the carried redeemers under the language view of the carried scripts
+                {
+                    let ws = &dec.transaction_witness_set;
+                    let lv = if has_redeemers {
+                        let version: u8 = if ws.plutus_v1_script.is_some() { 0 } else if ws.plutus_v2_script.is_some() { 1 } else { 2 };
+                        let cost_model: Vec<i64> = match version { 0 => vec![0i64; 166], 1 => vec![0i64; 175], _ => vec![0i64; 251] };
+                        Some(primitives::LanguageView(version, cost_model))
+                    } else { None };
+                    let expect = primitives::ScriptData::build_for(ws, &lv).map(|d| d.hash());
+                    if expect != body.script_data_hash {
+                        witness("cardano_body/compute_script_data_hash#postcondition", "compute_script_data_hash", input.clone(), format!("script_data_hash={:?}", body.script_data_hash.map(|h| hex::encode(h))), "script_data_hash == digest of the carried redeemers and the language view of the carried scripts");
+                    }
+                }
+                if has_redeemers != name.contains("mint") {
                     witness("cardano_body/entry_point#postcondition", "entry_point", input.clone(), format!("redeemers={has_redeemers}"), "redeemers carried iff the template has one");
                 }
                 if !dec.success {
@@ -118,4 +161,5 @@ fn main() {
     println!("VERIF-CASES fn=compile n={cases}");
     println!("VERIF-CASES fn=entry_point n={cases}");
     println!("VERIF-CASES fn=compile_tx_body n={cases}");
+    println!("VERIF-CASES fn=compute_script_data_hash n={cases}");
 }
